@@ -169,6 +169,7 @@ def gen_scenarios(rng, n):
 # ------------------------------------------------------------------ implementation side
 _state = {}
 _lock = threading.Lock()
+_start_lock = threading.Lock()
 
 
 def conf_text(cfg):
@@ -238,20 +239,24 @@ def _group(args):
         _state["k"] = _state.get("k", 0) + 1
         name = "vc61i%dp%d" % (_state["k"], os.getpid())
     out = {}
-    sq = L.squid(extra_conf=extra, access=access, name=name)
+    with _start_lock:                                # free_port() + bind is not atomic: start instances one at a time
+        sq = L.squid(extra_conf=extra, access=access, name=name)
     try:
         for idx, s, rid in items:
             q = s["req"]
             s["_myport"], s["_oport"] = sq.port, org.port
             if not sq.alive():                       # an admitted destructive action would end up here
-                sq.start()
-                s["_myport"] = sq.port
+                with _start_lock:
+                    sq.start()
             hdrs = [("Host", "%s:%d" % (HOST if q["form"] == "origin" else q["host"], sq.port if q["port"] == "my" else org.port)),
                     ("X-Rid", rid)]
             if q["auth"] is not None:
                 hdrs.append(("Authorization", q["auth"]))
             body = b"" if q["method"] == "POST" else None
-            r, raw = lab.get(sq.port, target(q, sq.port, org.port), headers=hdrs, method=q["method"], body=body, total=8.0)
+            try:
+                r, raw = lab.get(sq.port, target(q, sq.port, org.port), headers=hdrs, method=q["method"], body=body, total=8.0)
+            except OSError:
+                r = None
             fwd = any(("X-Rid", rid) in [(n, v) for n, v in a["headers"]] for a in org.arrivals())
             out[idx] = observe(r, fwd)
     finally:
